@@ -45,7 +45,7 @@ def checkBucketName (name : Bytes) : Bool :=
   else if name.head?.map isLowerOrDigit != some true then false
   else if name.getLast?.map isLowerOrDigit != some true then false
   else if containsDotDot name then false
-  else if ipAddrOk name then false
+  else if (splitAll dot name).length = 4 && (splitAll dot name).all (fun g => g.all isDigit) then false
   else if xnPrefix.isPrefixOf name then false
   else true
 
